@@ -7,8 +7,10 @@
 // aggregator with nearest-rank accept-sets. On top of that: every history a
 // second time without accessor calls before the end (accessors must not change
 // state), every sequence of samples and Trims on one long-lived table
-// (trimops.go), and the size families (size.go): one fixed history per shape
-// for n = 0..70 and around every power of two.
+// (trimops.go), the size families (size.go): one fixed history per shape
+// for n = 0..70 and around every power of two, and generated accumulator
+// programs (accumgen.go): every kind of name in group, accumulator and sort
+// position.
 package main
 
 import (
@@ -109,6 +111,14 @@ func families(quick bool) []family {
 	for i := range accPrograms {
 		p := &accPrograms[i]
 		fs = append(fs, family{name: "accum", config: p.name, alpha: p.alphabet, maxLen: pick(4, 5), ordered: true,
+			runAt: one(func(s []string, cp checkAt) result { return runAccumAt(p, s, cp) })})
+	}
+	for _, name := range genProgramNames() {
+		p := genProgram(name)
+		if p == nil {
+			panic("harness: bad generated program " + name)
+		}
+		fs = append(fs, family{name: "accum", config: p.name, alpha: genAlphabet(quick), maxLen: genMaxLen(name, quick), ordered: true,
 			runAt: one(func(s []string, cp checkAt) result { return runAccumAt(p, s, cp) })})
 	}
 	var nums []string
@@ -653,7 +663,7 @@ func main() {
 				}
 				return b
 			}
-			return "real MatchCounter / SubKeyCounter / TableAggregator (delimiters NUL and '::') / AccumulatingGroup (3 programs: sumi without groups; 1 group with sumi, count, maxi, a column reference, a forward column reference, last value and concatenation; 2 groups) / MatchNumerical (keep, keep+reverse, no-keep): EVERY sample sequence of length 0.." +
+			return "real MatchCounter / SubKeyCounter / TableAggregator (delimiters NUL and '::') / AccumulatingGroup (3 hand-written programs: sumi without groups; 1 group with sumi, count, maxi, a column reference, a forward column reference, last value and concatenation; 2 groups; plus the generated programs below) / MatchNumerical (keep, keep+reverse, no-keep): EVERY sample sequence of length 0.." +
 				pick("4 (counter), 3 (sub-key, table), 4 (accumulator), 5 (numerical)", "5 (counter), 4 (sub-key, table), 5 (accumulator), 6 (numerical)") +
 				" over keys {a,b,''} x sub-keys/rows {absent,x,y,''} x increments {absent,2,-1,0,zz,MaxInt64}, plus histories of up to 2 samples over 13 spellings of decimal integers (zero-padded, signed, 22 digits with leading zeros, MaxInt64+1, MinInt64, MinInt64-1)" +
 				", numerical symbols " + pick("{0,1,2,-3,2.5,x}", "{0,1,2,-3,2.5,x,1e9,''}") +
@@ -661,18 +671,19 @@ func main() {
 				"; each sequence is applied to a fresh object and every public accessor is compared with an independent fold after every prefix; sequences are enumerated as all distinct permutations of every multiset and the accessor states of all permutations are compared (order independence). Trim: every table on grids up to 2x3" + pick("", " and 3x2") + " with cells in {absent," + pick("2,-1", "2,-1,0") +
 				"} (every row/column non-empty), built in 3 different cell orders, x EVERY subset of the grid cells as predicate x {no follow-up sample, one more sample into each grid cell, a new row, a new column}. Splitter: every string up to length " + pick("6", "8") +
 				" over {a,b,':',NUL} x delimiters {NUL,':','::','ab',':a',':::'}. Accessor independence: every enumerated sequence (and every Trim history and size case below) is applied a second time to a fresh object WITHOUT any accessor call before the last operation; the final accessor state must satisfy the oracle and equal that of the run with accessor calls. Trim histories (one long-lived table that is trimmed and sampled again): EVERY sequence of 0.." + pick("4", "5") +
-				" operations over {sample into each cell of the grid {a,b}x{x,y}, into a new row, into a new column; Trim with each of the 15 non-empty cell subsets of that grid, Trim of everything, Trim of the cells of the new row/column, Trim of nothing}, the Trim oracle applied at every Trim and every accessor compared after every operation. " + sizeRule(q) + " states = distinct canonical accessor states reached (all prefixes are themselves enumerated sequences); transitions = Sample/Trim/Next operations applied to real objects. non-trivial = a sequence of >= 2 samples with >= 1 accepted sample; a Trim with a non-empty selection on a table of >= 2 cells; a splitter input containing the delimiter"
+				" operations over {sample into each cell of the grid {a,b}x{x,y}, into a new row, into a new column; Trim with each of the 15 non-empty cell subsets of that grid, Trim of everything, Trim of the cells of the new row/column, Trim of nothing}, the Trim oracle applied at every Trim and every accessor compared after every operation (rows and columns are re-created after a Trim removed them entirely; after a Trim the total of every row/column from which no Trim removed a present cell since it was created must equal the sum of its cells, the grand total when no listed column lost a cell, and OrderedRows/OrderedColumns under the value sorter must put the larger of two such totals first). " + genRule(q) + " " + sizeRule(q) + " states = distinct canonical accessor states reached (all prefixes are themselves enumerated sequences); transitions = Sample/Trim/Next operations applied to real objects. non-trivial = a sequence of >= 2 samples with >= 1 accepted sample; a Trim with a non-empty selection on a table of >= 2 cells; a splitter input containing the delimiter"
 		},
 		Assumptions: func(string) []string {
 			return []string{
 				"hash-map iteration order inside the aggregators is chosen by the Go runtime and is not enumerated; Trim cases are executed for three different map population orders and every execution must satisfy the oracle",
-				"after Trim the row/column/grand totals are not compared (the statement does not say whether totals are recomputed); a column whose present cells were all selected but which has an unselected absent cell may stay or go",
+				"after a Trim the total of a row/column that LOST a present cell and survived (or, for a column, may have survived) is not compared, nor the grand total while such a column is listed (the statement does not say whether totals are recomputed; the implementation keeps the pre-trim totals); every other row/column - untouched by the Trims since it was created, or created after a Trim, also under the name of a row/column that a Trim removed entirely - is compared like on a fresh table; a column whose present cells were all selected but which has an unselected absent cell may stay or go",
 				"numerical moments are compared with |got-want| <= 1e-9*|want| + 1e-12*max|sample| (a stable one-pass algorithm is ~1000x inside this at every magnitude)",
 				"nearest-rank accepts index ceil(p*n)-1 or floor(p*n) (clamped); ties for the mode accept every most-frequent value; the sample standard deviation is only compared for n >= 2, min/max/mean for n >= 1",
 				"increments are applied with Go int64 wrap-around in both the implementation and the reference fold",
 				"size families: one fixed history per (shape, n), not all histories of that size; the accessors are compared after every prefix of up to 70 samples, around every power of two and at the end (not after every prefix), the reference is the same fold; numerical size shapes use generated decimal spellings whose value the generator states (nothing is parsed by the reference)",
-				"in a Trim history a column that lost its cells at a Trim but had an unselected absent cell stays acceptable-either-way until a sample makes it present again or a later Trim selects its whole grid column; totals are compared until the first Trim only",
+				"in a Trim history a column that lost its cells at a Trim but had an unselected absent cell stays acceptable-either-way until a sample makes it present again or a later Trim selects its whole grid column (its total stays exempt)",
 				"accumulator expressions are restricted to sumi, maxi, concatenation, group and column references whose value the reference computes itself; an arithmetic helper applied to a non-integer must give a non-integer text",
+				"generated accumulator programs: neither the statement nor docs/usage/aggregators.md say what {.}, a data-column name, a group-column name or an unknown name yields inside a GROUP expression, or what a group-column name or an unknown name yields inside an ACCUMULATOR expression; for these only history independence is demanded (group of a sample = its group on a fresh aggregator; new column value = what a fresh aggregator started from the row before gives), the fresh aggregator being the same real code; with a sort expression only the SET of groups is compared (order: C13)",
 			}
 		},
 		Worker:         worker,
